@@ -136,11 +136,21 @@ def r_payload(idx, rep, rule="R-PAYLOAD"):
         if not fors:
             continue
         pv = u(fors[0].target)
-        tup = [st for st in iter_stmts(fors[0].body) if isinstance(st, ast.Assign) and isinstance(st.value, ast.Tuple) and len(st.value.elts) == 2]
+        # the two components of a pair: `pair[0]`, `pair[1]` for a plain loop variable, the two names for an unpacking target
+        if isinstance(fors[0].target, (ast.Tuple, ast.List)) and len(fors[0].target.elts) == 2:
+            comp = [u(e) for e in fors[0].target.elts]
+        else:
+            comp = ["%s[0]" % pv, "%s[1]" % pv]
+        # what is recorded: the argument of the append (or the tuple it names), temporaries read through
+        from ..core.astutil import inline_temps_in
+        rec_vals = [st.value.args[0] for st in iter_stmts(fors[0].body) if isinstance(st, ast.Expr) and isinstance(st.value, ast.Call)
+                    and (call_name(st.value) or "").endswith(".append") and st.value.args]
         good = False
-        if tup:
-            e0, e1 = [u(e).replace(" ", "") for e in tup[0].value.elts]
-            good = e0 == "self.aabbtree_.external_data_list[%s[0]]" % pv and e1 == "%s.aabbtree_.external_data_list[%s[1]]" % (oparam, pv)
+        if rec_vals:
+            v_ = inline_temps_in(g.node, rec_vals[0])
+            if isinstance(v_, ast.Tuple) and len(v_.elts) == 2:
+                e0, e1 = [u(e).replace(" ", "") for e in v_.elts]
+                good = e0 == "self.aabbtree_.external_data_list[%s]" % comp[0] and e1 == "%s.aabbtree_.external_data_list[%s]" % (oparam, comp[1])
         rep.check(good, rule, g.key + "|pair[0] -> self, pair[1] -> other", g.where,
                   "payload lookup must be (self...external_data_list[pair[0]], %s...external_data_list[pair[1]])" % oparam)
         # under which conditions is a pair recorded?  (guard clauses and enclosing ifs are one and the same to the guard chain)
@@ -152,7 +162,7 @@ def r_payload(idx, rep, rule="R-PAYLOAD"):
         atoms = guard_chain(pm, rec[0], fors[0])
         if name.endswith("_self"):
             ok = len(atoms) == 1 and isinstance(atoms[0][0], ast.Compare) and len(atoms[0][0].ops) == 1 \
-                and {u(atoms[0][0].left), u(atoms[0][0].comparators[0])} == {"%s[0]" % pv, "%s[1]" % pv} \
+                and {u(atoms[0][0].left), u(atoms[0][0].comparators[0])} == set(comp) \
                 and ((isinstance(atoms[0][0].ops[0], ast.Eq) and atoms[0][1] is False) or (isinstance(atoms[0][0].ops[0], ast.NotEq) and atoms[0][1] is True))
             rep.check(ok, rule, g.key + "|self pairs skipped iff equal indices", g.where,
                       "a pair is recorded under %s; pairs may be skipped only when pair[0] == pair[1]" % [("" if pol else "not ") + u(t) for t, pol in atoms])
@@ -215,8 +225,56 @@ def r_whitelist(idx, rep, rule="R-WHITELIST"):
             rets = [st for st in f.node.body if isinstance(st, ast.Return)]
             rep.check(len(rets) == 1 and isinstance(rets[0].value, ast.Name), rule, f.key + "|returns contacts", f.where, "detect must return the contacts dict")
         else:
-            ok = len(hit) == 1 and isinstance(hit[0], ast.Return) and const(hit[0].value) is True
-            rep.check(ok, rule, f.key + "|True on the first hit", f.where, "detect_any must return True at the first colliding pair")
-            last = f.node.body[-1]
-            rep.check(isinstance(last, ast.Return) and const(last.value) is False, rule, f.key + "|False after all pairs", f.where,
+            # decided by running the function's control skeleton in two scenarios — the narrow phase never reports a hit / reports one at its first
+            # evaluation — with every loop body executed once: `return True` inside the loops, a result flag with `break`s, or a sentinel all give
+            # (False, True); only boolean locals, the narrow-phase test and the loop exits are interpreted
+            narrow = tests[0].test
+
+            def scenario(hit_value):
+                env = {}
+
+                class _Ret(Exception):
+                    def __init__(self, v):
+                        self.v = v
+
+                class _Brk(Exception):
+                    pass
+
+                def truth(t):
+                    if t is narrow or u(t) == u(narrow):
+                        return hit_value
+                    if isinstance(t, ast.Name):
+                        return env.get(t.id)
+                    if isinstance(t, ast.Constant):
+                        return bool(t.value)
+                    if isinstance(t, ast.UnaryOp) and isinstance(t.op, ast.Not):
+                        v = truth(t.operand)
+                        return None if v is None else (not v)
+                    return None
+
+                def run(stmts):
+                    for st in stmts:
+                        if isinstance(st, ast.Return):
+                            raise _Ret(truth(st.value) if st.value is not None else None)
+                        if isinstance(st, ast.Assign) and len(st.targets) == 1 and isinstance(st.targets[0], ast.Name):
+                            env[st.targets[0].id] = truth(st.value)
+                        elif isinstance(st, ast.If):
+                            v = truth(st.test)
+                            if v is None:
+                                continue          # a filter that the scenario does not decide: its body does not run in the skeleton
+                            run(st.body if v else st.orelse)
+                        elif isinstance(st, (ast.For, ast.While)):
+                            try:
+                                run(st.body)
+                            except _Brk:
+                                pass
+                        elif isinstance(st, ast.Break):
+                            raise _Brk()
+                try:
+                    run(f.node.body)
+                except _Ret as r:
+                    return r.v
+                return None
+            rep.check(scenario(True) is True, rule, f.key + "|True on the first hit", f.where, "detect_any must return True at the first colliding pair")
+            rep.check(scenario(False) is False, rule, f.key + "|False after all pairs", f.where,
                       "detect_any must return False only after all colliders and candidates were tested")
